@@ -175,6 +175,9 @@ void ir_abort(void){ __CPROVER_assert(0, "TRAP:abort called"); __CPROVER_assume(
 #ifdef NEED_ir___assert_fail
 void ir___assert_fail(void *e, void *f, u32 l, void *fn){ __CPROVER_assert(0, "TRAP:assert() in library code failed"); __CPROVER_assume(0); }
 #endif
+#ifdef NEED_ir___cxa_thread_atexit
+u32 ir___cxa_thread_atexit(void *f, void *a, void *d){ return 0; }   /* thread-exit destructors never run inside an entry */
+#endif
 #ifdef NEED_ir___cxa_atexit
 u32 ir___cxa_atexit(void *f, void *a, void *d){ return 0; }
 #endif
